@@ -1,0 +1,20 @@
+//! Identities that are `pub(crate)` or `cfg(test)` in the server.
+use crate::prelude::*;
+use std::sync::Arc;
+
+pub fn internal() -> Identity {
+    Identity::from_internal()
+}
+
+/// As the test-only `Identity::from_impersonate_entry_readonly`.
+pub fn user_readonly(entry: Arc<EntrySealedCommitted>) -> Identity {
+    Identity::from_impersonate_entry_readwrite(entry).project_with_scope(AccessScope::ReadOnly)
+}
+
+pub fn user_readwrite(entry: Arc<EntrySealedCommitted>) -> Identity {
+    Identity::from_impersonate_entry_readwrite(entry)
+}
+
+pub fn cid(s_uuid: Uuid, ts: Duration) -> Cid {
+    Cid::new(s_uuid, ts)
+}
